@@ -199,7 +199,13 @@ pub fn c19(a: &Args) -> (Stats, String) {
     let t = Timer::new();
     let n = if a.thorough { 8 } else { 6 };
     // TEXT(n): one job per 2-byte prefix (121) plus one for the short strings
-    let dummy: Vec<Job> = (0..NA * NA + 3).map(|_| -> Job { Box::new(|_e: &mut fam::Emit| {}) }).collect();
+    // quick tier only (TEXT(8) of the thorough tier subsumes them): every string of exactly 7 bytes over the 9-byte core
+    // alphabet and of exactly 8 bytes over the 7-byte one - the shortest lengths at which sign, integer, point, fraction,
+    // exponent marker, exponent sign and exponent digit (and a suffix byte) are all present at once. One job per first byte.
+    const CORE7: [u8; 9] = [b'+', b'-', b'0', b'1', b'.', b'e', b'E', b'x', 0xFF];
+    const CORE8: [u8; 7] = [b'-', b'+', b'0', b'1', b'.', b'e', b'x'];
+    let ncore = if a.thorough { 0 } else { CORE7.len() + CORE8.len() };
+    let dummy: Vec<Job> = (0..NA * NA + 3 + ncore).map(|_| -> Job { Box::new(|_e: &mut fam::Emit| {}) }).collect();
     let st = run_jobs(
         &dummy,
         |_s, _j, _c| {},
@@ -246,6 +252,21 @@ pub fn c19(a: &Args) -> (Stats, String) {
                 for miss in ["na", "n", "in", "i", "infinit", "infinitx", "nax", "1nan", ".inf", "einf", "-", "+", "--1", "+-1", "-+1", "-.", "-e", "-e5", "-.e5", "+.5e-1x"] {
                     one_input(st, miss.as_bytes(), "SPECIAL");
                 }
+            } else if j >= NA * NA + 3 {
+                let k = j - (NA * NA + 3);
+                let (alpha, len, first): (&[u8], usize, u8) = if k < CORE7.len() { (&CORE7, 7, CORE7[k]) } else { (&CORE8, 8, CORE8[k - CORE7.len()]) };
+                let na = alpha.len();
+                let mut buf: Vec<u8> = Vec::with_capacity(len);
+                for k in 0..na.pow(len as u32 - 1) {
+                    buf.clear();
+                    buf.push(first);
+                    let mut r = k;
+                    for _ in 1..len {
+                        buf.push(alpha[r % na]);
+                        r /= na;
+                    }
+                    one_input(st, &buf, "TEXT-CORE");
+                }
             } else {
                 // structured product
                 let ints: [&[u8]; 8] = [b"", b"0", b"00", b"1", b"10", b"007", b"1234567890123456789012345", b"9007199254740993"];
@@ -283,9 +304,10 @@ pub fn c19(a: &Args) -> (Stats, String) {
     (
         st,
         format!(
-            "\"copies\":[{}],\"families\":[{{\"family\":\"TEXT({}) over 15 bytes + special literals + structured product, 7 copies x 2 formats\",\"wall_s\":{:.2}}}]",
+            "\"copies\":[{}],\"families\":[{{\"family\":\"TEXT({}) over 15 bytes{} + special literals + structured product, 7 copies x 2 formats\",\"wall_s\":{:.2}}}]",
             FE_PATHS.iter().map(|p| format!("{:?}", p)).collect::<Vec<_>>().join(","),
             n,
+            if a.thorough { "" } else { " + every 7-byte string over 9 core bytes + every 8-byte string over 7 core bytes" },
             t.secs()
         ),
     )
